@@ -21,7 +21,7 @@ var (
 
 func SV(rc *RC, floor int) {
 	rc.S.Declare("SV", "stale metadata: a local computed from a tensor's access pattern is not used after a call that rewrites that access pattern (Transpose, UT, T, Reshape, setShape, X.AP = …) unless it was recomputed in between", floor)
-	for _, fi := range rc.P.SortedFuncs() {
+	for _, fi := range rc.P.AnalysisFuncs() {
 		if fi.Pkg != rc.P.Root || fi.Decl.Body == nil || strings.HasSuffix(fi.File, "_test.go") || strings.HasPrefix(fi.File, "sparse") || lcGenerated[fi.File] {
 			continue
 		}
